@@ -1,0 +1,28 @@
+//go:build verif
+
+package strategy
+
+// Contracts checked by /verif (lsvc). This file contains comments only and is
+// compiled only with the build tag "verif".
+
+//@ func bytesToInt
+//@   nopanic
+//@   pure
+//@   ensures le32: len(b) == 4 ==> r0 == uint64(le32(b, 0))
+//@   ensures le64: len(b) == 8 ==> r0 == le64(b, 0)
+
+// MDB_INTEGERKEY order on little-endian hosts: native unsigned integers.
+//@ func cmpIntegerLittleEndian
+//@   nopanic
+//@   pure
+//@   ensures range: r0 == -1 || r0 == 0 || r0 == 1
+//@   ensures order4: len(a) == 4 && len(b) == 4 ==> iff(r0 < 0, le32(a, 0) < le32(b, 0)) && iff(r0 == 0, le32(a, 0) == le32(b, 0))
+//@   ensures order8: len(a) == 8 && len(b) == 8 ==> iff(r0 < 0, le64(a, 0) < le64(b, 0)) && iff(r0 == 0, le64(a, 0) == le64(b, 0))
+
+// setNewVal: empty result => delete, equal result => no write, otherwise put.
+//@ func setNewVal
+//@   nopanic
+//@   modifies ghost_dirty, ghost_nput, ghost_ndel
+//@   ensures empty_deletes: len(newVal) == 0 ==> ghost_nput == old(ghost_nput) && ghost_ndel == old(ghost_ndel) + 1
+//@   ensures nowrite_if_equal: len(newVal) > 0 && seqEq(newVal, oldVal) ==> ghost_nput == old(ghost_nput) && ghost_ndel == old(ghost_ndel) && ghost_dirty == old(ghost_dirty)
+//@   ensures put_otherwise: len(newVal) > 0 && !seqEq(newVal, oldVal) ==> ghost_nput == old(ghost_nput) + 1 && ghost_ndel == old(ghost_ndel)
